@@ -90,4 +90,13 @@ example : classify (some 400) true "InvalidParameterValueException" true = .invo
     classify (some 500) true "ServiceException" false = .invocation ∧
     classify none false "" false = .invocation := by decide
 
+/-- **F28 in the model (witness; the statement "a failed checkpoint call never ends in PENDING" is FALSE of the wrapper).**
+A handler that ends by suspending is reported PENDING whatever has happened to the checkpoint thread: the wrapper's
+`except SuspendExecution` clause does not look at it.  A failure reaches the outcome only through an exception raised in the
+handler thread (`bgCheckpoint`, `checkpoint` - `C18_checkpoint_failure_never_succeeds`), i.e. when somebody waited for the
+failing call; a call that carried only non-blocking updates is waited for by nobody. -/
+theorem C06_suspend_ignores_checkpoint_failure_witness (l : Bool) (ck : Ckpt) :
+    wrapper (.raisedExc .suspend l) ck = .pending := by
+  cases ck <;> simp [wrapper, onException]
+
 end C18
